@@ -33,7 +33,7 @@ Bool(m, s, n, f, o) == [type |-> "boolean", opts |-> o, min |-> 0,
 Pairs(S) == {<<a>> : a \in S} \cup {<<a, b>> : a \in S, b \in S}
 
 LeavesQuick ==
-  { Leaf("term", {"field", "boost"}), Leaf("match", {"field", "operator"}), Leaf("fuzzy", {}),
+  { Leaf("term", {"field", "boost"}), Leaf("match", {"field", "operator"}), Leaf("fuzzy", {}), Leaf("fuzzy", {"@auto", "field"}),
     Leaf("numeric_range", {"min", "max", "inclusive_min", "field"}), Leaf("match_all", {}),
     Leaf("docid", {"boost"}), Leaf("date_range", {"field", "inclusive_end"}),
     Leaf("phrase", {"field"}) }
